@@ -1,1 +1,1870 @@
-//! C16: not implemented yet.
+//! C16 — server responses are never larger than the request (no amplification).
+//!
+//! This file also hosts the machinery shared by group gg (C16, C17, C18, C19, C22):
+//!
+//! * a byte-level **request grammar** (`Req`/`Fld`, `build`) — 48-byte v3/v4/v5 headers
+//!   written field by field with *tagged* contents, extension fields framed by hand
+//!   (unique identifier, unknown, NTS cookie under the current/previous/expired/foreign
+//!   key, cookie placeholders, v5 reference-id request, v5 draft identification, padding,
+//!   the NTS authenticator built with AES-SIV directly so that nonce length and validity
+//!   are chosen by the harness) plus an optional MAC, in NTS and plain layouts;
+//! * an independent **answer walker** (`walk`, `open_nts`) — header accessors, extension
+//!   field walk, decryption of the authenticator with the client's s2c key; it never calls
+//!   the decoder under test;
+//! * environment builders (server configurations, synchronisation states, key sets in
+//!   rotated states, the mock clock) and `run_handle`, which wraps the real
+//!   `Server::handle` in `common::catch`.
+//!
+//! C16 proper (engine E-IN):
+//! every request of the grammar (all sequences of <= 3 extension-field symbols per version,
+//! x MAC variants) and every truncation of each is handled exactly as the daemon does —
+//! the answer buffer is `&mut send_buf[..request_len]` — under every server configuration
+//! of `Cfg::ALL` x 2 key-set states; oracle `answer.len() <= request.len()`.
+//! Because the slice bound makes that inequality hold for any `Server::handle`, the check
+//! has two further parts that keep it meaningful:
+//!   (s) the buffer discipline itself is read from the daemon source
+//!       (`ntpd/src/daemon/server.rs`): the 4th argument of the `self.server.handle(..)`
+//!       call must be the send buffer sliced to the length of the received datagram
+//!       (the same identifier that slices the receive buffer). If it is not, the
+//!       enumeration is re-run with the buffer the daemon would really pass and every
+//!       answer longer than its request is reported with the concrete datagram;
+//!   (i) the *intrinsic* answer size (4096-byte buffer) is measured for every request and
+//!       recorded (how many requests would be amplified were the daemon's slice missing,
+//!       and the worst factor) — a statistic, not a verdict.
+#![allow(clippy::all)]
+
+use std::collections::BTreeMap;
+use std::net::{IpAddr, Ipv4Addr, Ipv6Addr};
+use std::sync::{Arc, RwLock};
+use std::time::Duration;
+
+use aes_siv::KeyInit;
+use aes_siv::siv::{Aes128Siv, Aes256Siv};
+
+use super::common::{self, Ctx};
+use crate::keyset::{DecodedServerCookie, KeySet, KeySetProvider};
+use crate::nts::AeadAlgorithm;
+use crate::packet::v5::NtpClientCookie;
+use crate::packet::v5::extension_fields::ReferenceIdResponse;
+use crate::packet::v5::server_reference_id::{BloomFilter, RemoteBloomFilter};
+use crate::packet::{AesSivCmac256, AesSivCmac512, Cipher};
+use crate::{
+    FilterAction, FilterList, IpSubnet, NtpClock, NtpDuration, NtpLeapIndicator, NtpServerInfo,
+    NtpSnapshot, NtpTimestamp, NtpVersion, ReferenceId, Server, ServerAction, ServerConfig,
+    ServerReason, ServerResponse, ServerStatHandler, TimeSnapshot,
+};
+
+// =====================================================================================
+// environment
+// =====================================================================================
+
+/// Reception time handed to `Server::handle` and the mock clock's `now()`.
+pub(super) const RECV_TS: u64 = 0xE5A1_2B3C_4D5E_6F70;
+pub(super) const CLOCK_TS: u64 = 0xE5A1_2B3C_9D8E_7F61;
+/// The daemon's receive size (`MAX_PACKET_SIZE` in ntpd/src/daemon/server.rs).
+pub(super) const MAX_DATAGRAM: usize = 1024;
+pub(super) const BIG_BUF: usize = 4096;
+
+#[derive(Clone, Debug, Default)]
+pub(super) struct MockClock;
+
+impl NtpClock for MockClock {
+    type Error = std::io::Error;
+    fn now(&self) -> Result<NtpTimestamp, Self::Error> {
+        Ok(NtpTimestamp::from_bits(CLOCK_TS.to_be_bytes()))
+    }
+    fn set_frequency(&self, _freq: f64) -> Result<NtpTimestamp, Self::Error> {
+        panic!("server called set_frequency");
+    }
+    fn get_frequency(&self) -> Result<f64, Self::Error> {
+        Ok(0.0)
+    }
+    fn step_clock(&self, _offset: NtpDuration) -> Result<NtpTimestamp, Self::Error> {
+        panic!("server called step_clock");
+    }
+    fn disable_ntp_algorithm(&self) -> Result<(), Self::Error> {
+        panic!("server called disable_ntp_algorithm");
+    }
+    fn error_estimate_update(&self, _e: NtpDuration, _m: NtpDuration) -> Result<(), Self::Error> {
+        panic!("server called error_estimate_update");
+    }
+    fn status_update(&self, _l: NtpLeapIndicator) -> Result<(), Self::Error> {
+        panic!("server called status_update");
+    }
+}
+
+#[derive(Default)]
+pub(super) struct Stats {
+    pub regs: Vec<(u8, bool, ServerReason, ServerResponse)>,
+}
+
+impl ServerStatHandler for Stats {
+    fn register(&mut self, version: u8, nts: bool, reason: ServerReason, response: ServerResponse) {
+        self.regs.push((version, nts, reason, response));
+    }
+}
+
+/// Server configurations. The client always talks from `client_ip(..)` = 192.0.2.7 (or its
+/// v6 / v4-mapped forms), so "DenyList" etc. are defined relative to that address.
+#[derive(Clone, Copy, PartialEq, Eq, Debug, Hash, PartialOrd, Ord)]
+pub(super) enum Cfg {
+    /// allow everything, all versions, no rate limit, NTS optional
+    Open,
+    /// client on the deny list, action deny
+    DenyList,
+    /// client not on the allow list, action deny
+    AllowMissDeny,
+    /// non-NTS requests are denied
+    RequireNtsDeny,
+    /// non-NTS requests are ignored
+    RequireNtsIgnore,
+    /// only NTPv4 accepted
+    OnlyV4,
+    /// rate limiting on (cache of 1, cutoff 1 h)
+    RateLimited,
+    /// client on the deny list, action ignore
+    DenyIgnore,
+}
+
+impl Cfg {
+    pub(super) const ALL: [Cfg; 8] = [
+        Cfg::Open,
+        Cfg::DenyList,
+        Cfg::AllowMissDeny,
+        Cfg::RequireNtsDeny,
+        Cfg::RequireNtsIgnore,
+        Cfg::OnlyV4,
+        Cfg::RateLimited,
+        Cfg::DenyIgnore,
+    ];
+    pub(super) fn code(self) -> &'static str {
+        match self {
+            Cfg::Open => "open",
+            Cfg::DenyList => "denylist",
+            Cfg::AllowMissDeny => "allowmiss",
+            Cfg::RequireNtsDeny => "reqnts-deny",
+            Cfg::RequireNtsIgnore => "reqnts-ignore",
+            Cfg::OnlyV4 => "onlyv4",
+            Cfg::RateLimited => "ratelimit",
+            Cfg::DenyIgnore => "deny-ignore",
+        }
+    }
+    pub(super) fn parse(s: &str) -> Option<Cfg> {
+        Cfg::ALL.iter().copied().find(|c| c.code() == s)
+    }
+    /// the policy denies the client (answers, if any, are DENY)
+    pub(super) fn denies_client(self) -> bool {
+        matches!(self, Cfg::DenyList | Cfg::AllowMissDeny)
+    }
+}
+
+fn subnet(s: &str) -> IpSubnet {
+    s.parse().expect("subnet literal")
+}
+
+pub(super) fn server_config(c: Cfg) -> ServerConfig {
+    let all = vec![subnet("0.0.0.0/0"), subnet("::/0")];
+    let mut cfg = ServerConfig {
+        denylist: FilterList {
+            filter: vec![],
+            action: FilterAction::Deny,
+        },
+        allowlist: FilterList {
+            filter: all,
+            action: FilterAction::Ignore,
+        },
+        rate_limiting_cache_size: 0,
+        rate_limiting_cutoff: Duration::from_secs(3600),
+        require_nts: None,
+        accepted_versions: vec![NtpVersion::V3, NtpVersion::V4, NtpVersion::V5],
+    };
+    match c {
+        Cfg::Open => {}
+        Cfg::DenyList => {
+            cfg.denylist.filter = vec![subnet("192.0.2.0/24"), subnet("2001:db8::/32")];
+        }
+        Cfg::DenyIgnore => {
+            cfg.denylist.filter = vec![subnet("192.0.2.0/24"), subnet("2001:db8::/32")];
+            cfg.denylist.action = FilterAction::Ignore;
+        }
+        Cfg::AllowMissDeny => {
+            cfg.allowlist.filter = vec![subnet("10.0.0.0/8")];
+            cfg.allowlist.action = FilterAction::Deny;
+        }
+        Cfg::RequireNtsDeny => cfg.require_nts = Some(FilterAction::Deny),
+        Cfg::RequireNtsIgnore => cfg.require_nts = Some(FilterAction::Ignore),
+        Cfg::OnlyV4 => cfg.accepted_versions = vec![NtpVersion::V4],
+        Cfg::RateLimited => cfg.rate_limiting_cache_size = 1,
+    }
+    cfg
+}
+
+/// 0: 192.0.2.7, 1: 2001:db8::7, 2: ::ffff:192.0.2.7
+pub(super) fn client_ip(kind: usize) -> IpAddr {
+    match kind % 3 {
+        0 => IpAddr::V4(Ipv4Addr::new(192, 0, 2, 7)),
+        1 => IpAddr::V6(Ipv6Addr::new(0x2001, 0xdb8, 0, 0, 0, 0, 0, 7)),
+        _ => IpAddr::V6(Ipv4Addr::new(192, 0, 2, 7).to_ipv6_mapped()),
+    }
+}
+
+/// Server synchronisation state (the `NtpServerInfo` snapshot the server answers from).
+#[derive(Clone, Copy, Debug, PartialEq)]
+pub(super) struct Sync {
+    pub stratum: u8,
+    /// 0 NoWarning, 1 Leap61, 2 Leap59, 3 Unknown, 4 Unsynchronized
+    pub leap: u8,
+    pub refid: u32,
+    /// root delay as a power of two seconds (`None` = 0)
+    pub root_delay_exp: Option<i8>,
+    /// constant term of the root variance (s^2); dispersion = sqrt
+    pub var_base: f64,
+    /// linear term of the root variance
+    pub var_linear: f64,
+    pub precision_exp: i8,
+}
+
+impl Sync {
+    pub(super) const TYPICAL: Sync = Sync {
+        stratum: 2,
+        leap: 0,
+        refid: 0x7F00_0001,
+        root_delay_exp: Some(-1),
+        var_base: 0.25,
+        var_linear: 0.0,
+        precision_exp: -18,
+    };
+    pub(super) const UNSYNC: Sync = Sync {
+        stratum: 16,
+        leap: 4,
+        refid: u32::from_be_bytes(*b"XNON"),
+        root_delay_exp: None,
+        var_base: 0.0,
+        var_linear: 0.0,
+        precision_exp: -18,
+    };
+    pub(super) fn leap_indicator(&self) -> NtpLeapIndicator {
+        match self.leap {
+            0 => NtpLeapIndicator::NoWarning,
+            1 => NtpLeapIndicator::Leap61,
+            2 => NtpLeapIndicator::Leap59,
+            3 => NtpLeapIndicator::Unknown,
+            _ => NtpLeapIndicator::Unsynchronized,
+        }
+    }
+    /// the two leap bits on the wire
+    pub(super) fn leap_bits(&self) -> u8 {
+        self.leap.min(3)
+    }
+    pub(super) fn code(&self) -> String {
+        format!(
+            "s{}:l{}:r{:08x}:d{}:v{}:w{}:p{}",
+            self.stratum,
+            self.leap,
+            self.refid,
+            self.root_delay_exp.map(|e| e.to_string()).unwrap_or_else(|| "z".into()),
+            self.var_base,
+            self.var_linear,
+            self.precision_exp
+        )
+    }
+    pub(super) fn parse(s: &str) -> Option<Sync> {
+        let mut out = Sync::TYPICAL;
+        for part in s.split(':') {
+            if part.is_empty() {
+                return None;
+            }
+            let (k, v) = part.split_at(1);
+            match k {
+                "s" => out.stratum = v.parse().ok()?,
+                "l" => out.leap = v.parse().ok()?,
+                "r" => out.refid = u32::from_str_radix(v, 16).ok()?,
+                "d" => out.root_delay_exp = if v == "z" { None } else { Some(v.parse().ok()?) },
+                "v" => out.var_base = v.parse().ok()?,
+                "w" => out.var_linear = v.parse().ok()?,
+                "p" => out.precision_exp = v.parse().ok()?,
+                _ => return None,
+            }
+        }
+        Some(out)
+    }
+}
+
+/// Bloom filter byte `i` of every server state: a fixed, position dependent pattern so
+/// that reference-id responses can be checked against `offset..offset+len` exactly.
+pub(super) fn bloom_byte(i: usize) -> u8 {
+    (i as u8).wrapping_mul(7).wrapping_add(3) | 0x10
+}
+
+pub(super) fn bloom_pattern() -> BloomFilter {
+    let bytes: Vec<u8> = (0..512).map(bloom_byte).collect();
+    let mut remote = RemoteBloomFilter::new(512).expect("chunk size");
+    let cookie = NtpClientCookie([9; 8]);
+    let _ = remote.next_request(cookie);
+    let resp = ReferenceIdResponse::new(&bytes).expect("512 byte response");
+    remote.handle_response(cookie, &resp).expect("filter transfer");
+    *remote.full_filter().expect("filled")
+}
+
+pub(super) fn server_info(s: &Sync) -> NtpServerInfo {
+    NtpServerInfo {
+        time_snapshot: TimeSnapshot {
+            precision: NtpDuration::from_exponent(s.precision_exp),
+            root_delay: match s.root_delay_exp {
+                Some(e) => NtpDuration::from_exponent(e),
+                None => NtpDuration::ZERO,
+            },
+            root_variance_base_time: NtpTimestamp::from_bits((RECV_TS - (16u64 << 32)).to_be_bytes()),
+            root_variance_base: s.var_base,
+            root_variance_linear: s.var_linear,
+            root_variance_quadratic: 0.0,
+            root_variance_cubic: 0.0,
+            leap_indicator: s.leap_indicator(),
+            accumulated_steps: NtpDuration::ZERO,
+            accumulated_steps_threshold: None,
+        },
+        ntp_snapshot: NtpSnapshot {
+            stratum: s.stratum,
+            reference_id: ReferenceId::from_int(s.refid),
+            bloom_filter: bloom_pattern(),
+        },
+    }
+}
+
+/// Key-set environment: the server's key set plus key sets that minted older cookies.
+pub(super) struct KeyEnv {
+    pub server: Arc<KeySet>,
+    /// one rotation older than `server` (still accepted; == server when unrotated)
+    pub prev: Arc<KeySet>,
+    /// rotated out of the server's history
+    pub expired: Arc<KeySet>,
+    /// a different provider altogether (same key ids, other keys)
+    pub foreign: Arc<KeySet>,
+    pub rotated: bool,
+    /// cookie bytes used by `Ck::Custom` (a cookie the server handed out earlier)
+    pub custom: Vec<u8>,
+}
+
+/// `rotated == true`: provider with history 1 rotated twice (server holds keys k1,k2 with
+/// id offset 1; `prev` minted under k1, `expired` under k0). `false`: a fresh provider
+/// (single key); `prev` is then the same key set.
+pub(super) fn key_env(rotated: bool) -> KeyEnv {
+    if rotated {
+        let mut p = KeySetProvider::new(1);
+        let s0 = p.get();
+        p.rotate();
+        let s1 = p.get();
+        p.rotate();
+        let s2 = p.get();
+        let mut f = KeySetProvider::new(1);
+        f.rotate();
+        f.rotate();
+        KeyEnv {
+            server: s2,
+            prev: s1,
+            expired: s0,
+            foreign: f.get(),
+            rotated,
+            custom: vec![],
+        }
+    } else {
+        let p = KeySetProvider::new(1);
+        let mut old = KeySetProvider::new(0);
+        let e0 = old.get();
+        old.rotate();
+        let _ = e0;
+        // `old` now only knows key id 1 — unknown to the fresh single-key server
+        KeyEnv {
+            server: p.get(),
+            prev: p.get(),
+            expired: old.get(),
+            foreign: KeySetProvider::new(1).get(),
+            rotated,
+            custom: vec![],
+        }
+    }
+}
+
+/// The client's NTS session (what NTS-KE would have established). Key bytes are fixed.
+#[derive(Clone, Copy, Debug, PartialEq, Eq, Hash)]
+pub(super) struct Session {
+    pub alg512: bool,
+}
+
+impl Session {
+    pub(super) fn key_len(&self) -> usize {
+        if self.alg512 { 64 } else { 32 }
+    }
+    pub(super) fn s2c_key(&self) -> Vec<u8> {
+        (0..self.key_len()).map(|i| 0x20u8.wrapping_add(i as u8)).collect()
+    }
+    pub(super) fn c2s_key(&self) -> Vec<u8> {
+        (0..self.key_len()).map(|i| 0x81u8.wrapping_add(3 * i as u8)).collect()
+    }
+    pub(super) fn algorithm(&self) -> AeadAlgorithm {
+        if self.alg512 {
+            AeadAlgorithm::AeadAesSivCmac512
+        } else {
+            AeadAlgorithm::AeadAesSivCmac256
+        }
+    }
+    fn cipher(&self, key: &[u8]) -> Box<dyn Cipher> {
+        if self.alg512 {
+            Box::new(AesSivCmac512::try_from(key.iter().copied()).expect("key size"))
+        } else {
+            Box::new(AesSivCmac256::try_from(key).expect("key size"))
+        }
+    }
+    pub(super) fn s2c(&self) -> Box<dyn Cipher> {
+        self.cipher(&self.s2c_key())
+    }
+    pub(super) fn c2s(&self) -> Box<dyn Cipher> {
+        self.cipher(&self.c2s_key())
+    }
+    pub(super) fn decoded(&self) -> DecodedServerCookie {
+        DecodedServerCookie {
+            algorithm: self.algorithm(),
+            s2c: self.s2c(),
+            c2s: self.c2s(),
+        }
+    }
+    /// length of a cookie for this session: 2 (alg) + 2 keys, + 6 header + 16 nonce + 16 tag
+    pub(super) fn cookie_len(&self) -> usize {
+        2 + 2 * self.key_len() + 6 + 16 + 16
+    }
+}
+
+/// AES-SIV exactly as RFC 8915 uses it (associated data = [aad, nonce]); returns
+/// tag || ciphertext. Used by the harness so that it can choose the nonce.
+pub(super) fn siv_encrypt(alg512: bool, key: &[u8], aad: &[u8], nonce: &[u8], plaintext: &[u8]) -> Vec<u8> {
+    if alg512 {
+        let mut siv = Aes256Siv::new(aes_siv::Key::<Aes256Siv>::from_slice(key));
+        siv.encrypt([aad, nonce], plaintext).expect("siv encrypt")
+    } else {
+        let mut siv = Aes128Siv::new(aes_siv::Key::<Aes128Siv>::from_slice(key));
+        siv.encrypt([aad, nonce], plaintext).expect("siv encrypt")
+    }
+}
+
+pub(super) fn make_server(cfg: Cfg, sync: &Sync, keys: &Arc<KeySet>) -> Server<MockClock> {
+    Server::new_internal(
+        server_config(cfg),
+        MockClock,
+        Arc::new(RwLock::new(server_info(sync))),
+        keys.clone(),
+    )
+}
+
+#[derive(Clone, Debug, PartialEq, Eq)]
+pub(super) enum Out {
+    Ignore,
+    Respond(Vec<u8>),
+}
+
+pub(super) struct Handled {
+    pub out: Out,
+    pub regs: Vec<(u8, bool, ServerReason, ServerResponse)>,
+}
+
+/// One call of the real `Server::handle` with an answer buffer of exactly `buf_len`
+/// zeroed bytes. `Err` = the server panicked (would abort the daemon).
+pub(super) fn run_handle(
+    server: &mut Server<MockClock>,
+    ip: IpAddr,
+    request: &[u8],
+    buf_len: usize,
+) -> Result<Handled, String> {
+    let mut buf = vec![0u8; buf_len];
+    let mut stats = Stats::default();
+    let r = common::catch(|| {
+        match server.handle(
+            ip,
+            NtpTimestamp::from_bits(RECV_TS.to_be_bytes()),
+            request,
+            &mut buf,
+            &mut stats,
+        ) {
+            ServerAction::Ignore => Out::Ignore,
+            ServerAction::Respond { message } => Out::Respond(message.to_vec()),
+        }
+    });
+    r.map(|out| Handled {
+        out,
+        regs: stats.regs,
+    })
+}
+
+// =====================================================================================
+// request grammar
+// =====================================================================================
+
+pub(super) const T_UID: u16 = 0x0104;
+pub(super) const T_COOKIE: u16 = 0x0204;
+pub(super) const T_PH: u16 = 0x0304;
+pub(super) const T_AUTH: u16 = 0x0404;
+pub(super) const T_UNKNOWN: u16 = 0x0B0B;
+pub(super) const T_DRAFT: u16 = 0xF5FF;
+pub(super) const T_PAD: u16 = 0xF501;
+pub(super) const T_REFREQ: u16 = 0xF503;
+pub(super) const T_REFRESP: u16 = 0xF504;
+pub(super) const DRAFT: &[u8] = b"draft-ietf-ntp-ntpv5-09";
+pub(super) const UPGRADE_TS: &[u8; 8] = b"NTP5DRFT";
+
+/// Which key set minted the cookie.
+#[derive(Clone, Copy, Debug, PartialEq, Eq, Hash, PartialOrd, Ord)]
+pub(super) enum Ck {
+    Cur,
+    Prev,
+    Expired,
+    Foreign,
+    Garbage,
+    /// the bytes in `KeyEnv::custom`
+    Custom,
+}
+
+/// How the NTS authenticator field is produced.
+#[derive(Clone, Copy, Debug, PartialEq, Eq, Hash, PartialOrd, Ord)]
+pub(super) enum Au {
+    /// valid, 16-byte nonce
+    Ok,
+    /// valid, 8-byte nonce
+    N8,
+    /// valid, 32-byte nonce
+    N32,
+    /// one bit of the SIV tag flipped
+    BadTag,
+    /// encrypted with the s2c key instead of c2s
+    WrongKey,
+}
+
+#[derive(Clone, Debug, PartialEq, Eq, Hash, PartialOrd, Ord)]
+pub(super) enum Fld {
+    /// unique identifier with a tagged body of n bytes
+    Uid(u16),
+    /// unknown type 0x0B0B with a tagged body of n bytes
+    Unk(u16),
+    /// NTS cookie + n extra zero bytes in the field body
+    Cookie(Ck, u16),
+    /// cookie placeholder, body length = cookie length + delta
+    Ph(i16),
+    /// v5 reference-id request (payload length, offset)
+    RefId(u16, u16),
+    /// v5 draft identification (true = the server's draft)
+    Draft(bool),
+    /// v5 padding field of total length n
+    Pad(u16),
+    /// NTS authenticator and encrypted extension fields
+    Auth(Au, Vec<Fld>),
+}
+
+#[derive(Clone, Debug, PartialEq, Eq, Hash)]
+pub(super) struct Req {
+    pub ver: u8,
+    pub mode: u8,
+    pub poll: u8,
+    pub leap: u8,
+    /// v4 only: reference timestamp = "NTP5DRFT"
+    pub upgrade: bool,
+    pub alg512: bool,
+    pub fields: Vec<Fld>,
+    /// trailing MAC length (0 = none)
+    pub mac: u16,
+}
+
+impl Fld {
+    pub(super) fn code(&self) -> String {
+        match self {
+            Fld::Uid(n) => format!("u{n}"),
+            Fld::Unk(n) => format!("k{n}"),
+            Fld::Cookie(c, x) => format!(
+                "c{}{}",
+                match c {
+                    Ck::Cur => 'C',
+                    Ck::Prev => 'P',
+                    Ck::Expired => 'E',
+                    Ck::Foreign => 'F',
+                    Ck::Garbage => 'G',
+                    Ck::Custom => 'X',
+                },
+                x
+            ),
+            Fld::Ph(d) => format!("p{d}"),
+            Fld::RefId(l, o) => format!("r{l}@{o}"),
+            Fld::Draft(g) => format!("d{}", *g as u8),
+            Fld::Pad(n) => format!("z{n}"),
+            Fld::Auth(a, inner) => format!(
+                "A{}({})",
+                match a {
+                    Au::Ok => "ok",
+                    Au::N8 => "n8",
+                    Au::N32 => "n32",
+                    Au::BadTag => "bad",
+                    Au::WrongKey => "key",
+                },
+                inner.iter().map(|f| f.code()).collect::<Vec<_>>().join("+")
+            ),
+        }
+    }
+
+    pub(super) fn parse(s: &str) -> Option<Fld> {
+        let (head, rest) = s.split_at(1);
+        Some(match head {
+            "u" => Fld::Uid(rest.parse().ok()?),
+            "k" => Fld::Unk(rest.parse().ok()?),
+            "c" => {
+                let (k, x) = rest.split_at(1);
+                let ck = match k {
+                    "C" => Ck::Cur,
+                    "P" => Ck::Prev,
+                    "E" => Ck::Expired,
+                    "F" => Ck::Foreign,
+                    "G" => Ck::Garbage,
+                    "X" => Ck::Custom,
+                    _ => return None,
+                };
+                Fld::Cookie(ck, x.parse().ok()?)
+            }
+            "p" => Fld::Ph(rest.parse().ok()?),
+            "r" => {
+                let (l, o) = rest.split_once('@')?;
+                Fld::RefId(l.parse().ok()?, o.parse().ok()?)
+            }
+            "d" => Fld::Draft(rest == "1"),
+            "z" => Fld::Pad(rest.parse().ok()?),
+            "A" => {
+                let open = rest.find('(')?;
+                let au = match &rest[..open] {
+                    "ok" => Au::Ok,
+                    "n8" => Au::N8,
+                    "n32" => Au::N32,
+                    "bad" => Au::BadTag,
+                    "key" => Au::WrongKey,
+                    _ => return None,
+                };
+                let inner = rest[open + 1..].strip_suffix(')')?;
+                let fields = if inner.is_empty() {
+                    vec![]
+                } else {
+                    inner.split('+').map(Fld::parse).collect::<Option<Vec<_>>>()?
+                };
+                Fld::Auth(au, fields)
+            }
+            _ => return None,
+        })
+    }
+}
+
+impl Req {
+    pub(super) fn plain(ver: u8, fields: Vec<Fld>) -> Req {
+        Req {
+            ver,
+            mode: 3,
+            poll: 6,
+            leap: 0,
+            upgrade: false,
+            alg512: false,
+            fields,
+            mac: 0,
+        }
+    }
+
+    /// e.g. `v4.m3.p6.l0.g0.a0|u32,cC0,Aok(p0+p0)|m20`
+    pub(super) fn code(&self) -> String {
+        format!(
+            "v{}.m{}.p{}.l{}.g{}.a{}|{}|m{}",
+            self.ver,
+            self.mode,
+            self.poll,
+            self.leap,
+            self.upgrade as u8,
+            self.alg512 as u8,
+            self.fields.iter().map(|f| f.code()).collect::<Vec<_>>().join(","),
+            self.mac
+        )
+    }
+
+    pub(super) fn parse(s: &str) -> Option<Req> {
+        let mut it = s.split('|');
+        let hdr = it.next()?;
+        let fields = it.next()?;
+        let mac = it.next()?;
+        let mut r = Req::plain(4, vec![]);
+        for part in hdr.split('.') {
+            let (k, v) = part.split_at(1);
+            let v: u32 = v.parse().ok()?;
+            match k {
+                "v" => r.ver = v as u8,
+                "m" => r.mode = v as u8,
+                "p" => r.poll = v as u8,
+                "l" => r.leap = v as u8,
+                "g" => r.upgrade = v != 0,
+                "a" => r.alg512 = v != 0,
+                _ => return None,
+            }
+        }
+        if !fields.is_empty() {
+            r.fields = fields.split(',').map(Fld::parse).collect::<Option<Vec<_>>>()?;
+        }
+        r.mac = mac.strip_prefix('m')?.parse().ok()?;
+        Some(r)
+    }
+
+    pub(super) fn session(&self) -> Session {
+        Session {
+            alg512: self.alg512,
+        }
+    }
+}
+
+/// 8-byte tag, unique per (position, kind, chunk); its first 4 bytes are unique as well.
+pub(super) fn tag8(pos: u8, kind: u8, j: u8) -> [u8; 8] {
+    [0xA5, 0xC0 | (pos & 0x3F), kind, j, 0x5A, !pos, !kind, 0x3C ^ j]
+}
+
+pub(super) fn tagged(pos: u8, kind: u8, n: usize) -> Vec<u8> {
+    (0..n).map(|k| tag8(pos, kind, (k / 8) as u8)[k % 8]).collect()
+}
+
+const K_UID: u8 = 1;
+const K_UNK: u8 = 2;
+const K_GARBAGE: u8 = 3;
+const K_NONCE: u8 = 4;
+const K_MAC: u8 = 5;
+const K_HDR: u8 = 6;
+
+#[derive(Clone, Copy, Debug, PartialEq, Eq, Hash)]
+pub(super) enum Zone {
+    /// no authenticator in the request, or before the (first) authenticator
+    Pre,
+    /// inside the encrypted part
+    Enc,
+    /// after the authenticator (never authenticated)
+    Post,
+}
+
+#[derive(Clone, Copy, Debug, PartialEq, Eq)]
+pub(super) enum AuthState {
+    /// no authenticator field: a plain request
+    NoAuth,
+    /// exactly one authenticator, correctly built, exactly one cookie before it and that
+    /// cookie is accepted by the server's key set
+    Valid,
+    /// an authenticator that cannot verify (bad tag, wrong key, no/unknown cookie)
+    Invalid,
+    /// several cookies before the authenticator or several authenticators: whether this
+    /// authenticates is a policy choice; both a NAK and an authenticated answer are fine
+    Ambiguous,
+}
+
+#[derive(Clone, Debug)]
+pub(super) struct Span {
+    pub off: usize,
+    pub wire: usize,
+    pub ty: u16,
+    pub zone: Zone,
+}
+
+#[derive(Clone, Debug)]
+pub(super) struct Built {
+    pub bytes: Vec<u8>,
+    /// outer extension fields (offset from packet start)
+    pub spans: Vec<Span>,
+    /// offsets (packet relative) of every 2-byte big-endian length field that can be
+    /// edited on the wire (outer field lengths, nonce/ciphertext lengths)
+    pub len_offsets: Vec<usize>,
+    /// (body, zone, end offset of the field on the wire [Enc: end of the authenticator])
+    pub uids: Vec<(Vec<u8>, Zone, usize)>,
+    /// (payload length the server sees, offset, zone, end offset)
+    pub refreqs: Vec<(usize, usize, Zone, usize)>,
+    /// 8-byte strings of the request that no answer may contain
+    pub forbidden: Vec<[u8; 8]>,
+    /// body length of every cookie / placeholder field of the request (any zone)
+    pub cookie_like: Vec<usize>,
+    /// cookie bodies of the request (freshness oracle)
+    pub cookies: Vec<Vec<u8>>,
+    pub auth: AuthState,
+    /// end offset of the (first) authenticator field
+    pub auth_end: usize,
+    /// start of the trailing MAC (== bytes.len() when none)
+    pub mac_off: usize,
+    /// length of the plaintext of the first authenticator (before any edit)
+    pub plain_len: usize,
+}
+
+fn round4(n: usize) -> usize {
+    (n + 3) & !3
+}
+
+/// Append one extension field; returns (offset, wire length).
+fn put_field(out: &mut Vec<u8>, ver: u8, ty: u16, body: &[u8]) -> (usize, usize) {
+    let off = out.len();
+    let wire = round4(4 + body.len());
+    let declared = if ver == 5 { 4 + body.len() } else { wire };
+    out.extend_from_slice(&ty.to_be_bytes());
+    out.extend_from_slice(&(declared as u16).to_be_bytes());
+    out.extend_from_slice(body);
+    out.resize(off + wire, 0);
+    (off, wire)
+}
+
+struct Acc {
+    uids: Vec<(Vec<u8>, Zone, usize)>,
+    refreqs: Vec<(usize, usize, Zone, usize)>,
+    forbidden: Vec<[u8; 8]>,
+    cookie_like: Vec<usize>,
+    cookies: Vec<Vec<u8>>,
+}
+
+fn forbid_chunks(acc: &mut Acc, body: &[u8]) {
+    for c in body.chunks_exact(8) {
+        acc.forbidden.push(c.try_into().unwrap());
+    }
+}
+
+/// Encode a non-Auth field into `out`. `pos` = unique position number for tagging.
+fn put_simple(
+    out: &mut Vec<u8>,
+    acc: &mut Acc,
+    f: &Fld,
+    ver: u8,
+    pos: u8,
+    zone: Zone,
+    keys: &KeyEnv,
+    sess: &Session,
+) -> (usize, usize, u16) {
+    match f {
+        Fld::Uid(n) => {
+            let body = tagged(pos, K_UID, *n as usize);
+            let (o, w) = put_field(out, ver, T_UID, &body);
+            // in v4 framing the server sees the body padded to a multiple of 4
+            let seen = if ver == 5 { body } else { out[o + 4..o + w].to_vec() };
+            acc.uids.push((seen, zone, o + w));
+            (o, w, T_UID)
+        }
+        Fld::Unk(n) => {
+            let body = tagged(pos, K_UNK, *n as usize);
+            forbid_chunks(acc, &body);
+            let (o, w) = put_field(out, ver, T_UNKNOWN, &body);
+            (o, w, T_UNKNOWN)
+        }
+        Fld::Cookie(ck, extra) => {
+            let mut body = match ck {
+                Ck::Cur => keys.server.encode_cookie(&sess.decoded()),
+                Ck::Prev => keys.prev.encode_cookie(&sess.decoded()),
+                Ck::Expired => keys.expired.encode_cookie(&sess.decoded()),
+                Ck::Foreign => keys.foreign.encode_cookie(&sess.decoded()),
+                Ck::Garbage => tagged(pos, K_GARBAGE, sess.cookie_len()),
+                Ck::Custom => keys.custom.clone(),
+            };
+            // the cookie's nonce and the start of its ciphertext must not come back
+            if body.len() >= 30 {
+                acc.forbidden.push(body[6..14].try_into().unwrap());
+                acc.forbidden.push(body[22..30].try_into().unwrap());
+            }
+            acc.cookies.push(body.clone());
+            body.resize(body.len() + *extra as usize, 0);
+            acc.cookie_like.push(round4(body.len()));
+            let (o, w) = put_field(out, ver, T_COOKIE, &body);
+            (o, w, T_COOKIE)
+        }
+        Fld::Ph(delta) => {
+            let n = (sess.cookie_len() as i64 + *delta as i64).max(0) as usize;
+            acc.cookie_like.push(n);
+            let (o, w) = put_field(out, ver, T_PH, &vec![0u8; n]);
+            (o, w, T_PH)
+        }
+        Fld::RefId(len, offset) => {
+            let mut body = vec![0u8; (*len as usize).max(2)];
+            body[..2].copy_from_slice(&offset.to_be_bytes());
+            let (o, w) = put_field(out, ver, T_REFREQ, &body);
+            let seen = if ver == 5 { body.len() } else { w - 4 };
+            acc.refreqs.push((seen, *offset as usize, zone, o + w));
+            (o, w, T_REFREQ)
+        }
+        Fld::Draft(good) => {
+            let mut body = DRAFT.to_vec();
+            if !*good {
+                *body.last_mut().unwrap() = b'8';
+            }
+            let (o, w) = put_field(out, ver, T_DRAFT, &body);
+            (o, w, T_DRAFT)
+        }
+        Fld::Pad(n) => {
+            let (o, w) = put_field(out, ver, T_PAD, &vec![0u8; (*n as usize).saturating_sub(4)]);
+            (o, w, T_PAD)
+        }
+        Fld::Auth(..) => unreachable!("nested authenticator"),
+    }
+}
+
+fn write_header(r: &Req) -> Vec<u8> {
+    let mut h = vec![0u8; 48];
+    h[0] = ((r.leap & 3) << 6) | ((r.ver & 7) << 3) | (r.mode & 7);
+    h[1] = 0xB7; // stratum (a client would send 0; must not come back)
+    h[2] = r.poll;
+    h[3] = 0xC9; // precision
+    h[4..8].copy_from_slice(&tag8(0x30, K_HDR, 0)[..4]);
+    h[8..12].copy_from_slice(&tag8(0x31, K_HDR, 0)[..4]);
+    if r.ver == 5 {
+        h[12] = 2; // timescale UT1
+        h[13] = 0x5A; // era
+        h[14] = 0;
+        h[15] = 0b010; // interleaved mode requested
+        h[16..24].copy_from_slice(&tag8(0x32, K_HDR, 0)); // server cookie
+        h[24..32].copy_from_slice(&tag8(0x33, K_HDR, 0)); // client cookie (echoed)
+        h[32..40].copy_from_slice(&tag8(0x34, K_HDR, 0));
+        h[40..48].copy_from_slice(&tag8(0x35, K_HDR, 0));
+    } else {
+        h[12..16].copy_from_slice(&tag8(0x32, K_HDR, 0)[..4]); // reference id
+        if r.upgrade {
+            h[16..24].copy_from_slice(UPGRADE_TS);
+        } else {
+            h[16..24].copy_from_slice(&tag8(0x33, K_HDR, 0)); // reference ts
+        }
+        h[24..32].copy_from_slice(&tag8(0x34, K_HDR, 0)); // origin ts
+        h[32..40].copy_from_slice(&tag8(0x35, K_HDR, 0)); // receive ts
+        h[40..48].copy_from_slice(&tag8(0x36, K_HDR, 0)); // transmit ts (echoed as origin)
+    }
+    h
+}
+
+/// Assemble the datagram of `r` and the facts the oracles need about it.
+pub(super) fn build(r: &Req, keys: &KeyEnv) -> Built {
+    build_with(r, keys, None)
+}
+
+/// Like `build`; `plain_edit` may modify the plaintext of the (first) authenticator before
+/// it is encrypted (C22: malformed but correctly authenticated encrypted parts).
+pub(super) fn build_with(r: &Req, keys: &KeyEnv, plain_edit: Option<&dyn Fn(&mut Vec<u8>)>) -> Built {
+    let sess = r.session();
+    let mut out = write_header(r);
+    let mut acc = Acc {
+        uids: vec![],
+        refreqs: vec![],
+        forbidden: vec![],
+        cookie_like: vec![],
+        cookies: vec![],
+    };
+    // header contents that must never come back (everything except the echoed id)
+    if r.ver == 5 {
+        for range in [16..24usize, 32..40, 40..48] {
+            acc.forbidden.push(out[range].try_into().unwrap());
+        }
+    } else {
+        if !r.upgrade {
+            acc.forbidden.push(out[16..24].try_into().unwrap());
+        }
+        for range in [24..32usize, 32..40] {
+            acc.forbidden.push(out[range].try_into().unwrap());
+        }
+    }
+    let mut spans = vec![];
+    let mut len_offsets = vec![];
+    let mut zone = Zone::Pre;
+    let mut n_auth = 0usize;
+    let mut auth_ok = true;
+    let mut pre_cookies: Vec<Ck> = vec![];
+    let mut auth_end = 0usize;
+    let mut plain_len = 0usize;
+    for (i, f) in r.fields.iter().enumerate() {
+        match f {
+            Fld::Auth(au, inner) => {
+                // plaintext: the inner fields in the same framing
+                let mut plain = vec![];
+                let mut inner_acc = Acc {
+                    uids: vec![],
+                    refreqs: vec![],
+                    forbidden: vec![],
+                    cookie_like: vec![],
+                    cookies: vec![],
+                };
+                for (k, g) in inner.iter().enumerate() {
+                    put_simple(&mut plain, &mut inner_acc, g, r.ver, (16 + i * 4 + k) as u8, Zone::Enc, keys, &sess);
+                }
+                if n_auth == 0 {
+                    plain_len = plain.len();
+                    if let Some(edit) = plain_edit {
+                        edit(&mut plain);
+                    }
+                }
+                let nonce_len = match au {
+                    Au::N8 => 8,
+                    Au::N32 => 32,
+                    _ => 16,
+                };
+                let nonce = tagged(i as u8, K_NONCE, nonce_len);
+                let key = if *au == Au::WrongKey { sess.s2c_key() } else { sess.c2s_key() };
+                let mut ct = siv_encrypt(r.alg512, &key, &out, &nonce, &plain);
+                if *au == Au::BadTag {
+                    ct[3] ^= 0x10;
+                }
+                let mut body = vec![];
+                body.extend_from_slice(&(nonce.len() as u16).to_be_bytes());
+                body.extend_from_slice(&(ct.len() as u16).to_be_bytes());
+                body.extend_from_slice(&nonce);
+                body.resize(4 + round4(nonce.len()), 0);
+                body.extend_from_slice(&ct);
+                let (o, w) = put_field(&mut out, r.ver, T_AUTH, &body);
+                spans.push(Span {
+                    off: o,
+                    wire: w,
+                    ty: T_AUTH,
+                    zone,
+                });
+                len_offsets.extend([o + 2, o + 4, o + 6]);
+                // nothing of the authenticator may come back
+                acc.forbidden.push(nonce[..8].try_into().unwrap());
+                acc.forbidden.push(ct[..8].try_into().unwrap());
+                if ct.len() >= 24 {
+                    acc.forbidden.push(ct[16..24].try_into().unwrap());
+                }
+                let end = o + w;
+                for (b, _, _) in inner_acc.uids {
+                    acc.uids.push((b, Zone::Enc, end));
+                }
+                for (l, off, _, _) in inner_acc.refreqs {
+                    acc.refreqs.push((l, off, Zone::Enc, end));
+                }
+                acc.forbidden.extend(inner_acc.forbidden);
+                acc.cookie_like.extend(inner_acc.cookie_like);
+                acc.cookies.extend(inner_acc.cookies);
+                n_auth += 1;
+                if n_auth == 1 {
+                    auth_end = end;
+                    auth_ok = matches!(au, Au::Ok | Au::N8 | Au::N32);
+                }
+                zone = Zone::Post;
+            }
+            other => {
+                if let (Fld::Cookie(ck, _), Zone::Pre) = (other, zone) {
+                    pre_cookies.push(*ck);
+                }
+                let (o, w, ty) = put_simple(&mut out, &mut acc, other, r.ver, i as u8, zone, keys, &sess);
+                spans.push(Span {
+                    off: o,
+                    wire: w,
+                    ty,
+                    zone,
+                });
+                len_offsets.push(o + 2);
+            }
+        }
+    }
+    let mac_off = out.len();
+    if r.mac > 0 {
+        let n = r.mac as usize;
+        if n >= 4 {
+            out.extend_from_slice(&0x0000_002Au32.to_be_bytes()); // key id
+            let fill = tagged(0x3E, K_MAC, n - 4);
+            forbid_chunks(&mut acc, &fill);
+            out.extend_from_slice(&fill);
+        } else {
+            out.extend(std::iter::repeat(0xEE).take(n));
+        }
+    }
+    let auth = if n_auth == 0 || r.ver == 3 {
+        AuthState::NoAuth
+    } else if n_auth > 1 || pre_cookies.len() > 1 {
+        AuthState::Ambiguous
+    } else if !auth_ok || pre_cookies.is_empty() {
+        AuthState::Invalid
+    } else {
+        match pre_cookies[0] {
+            Ck::Cur | Ck::Prev => AuthState::Valid,
+            _ => AuthState::Invalid,
+        }
+    };
+    Built {
+        bytes: out,
+        spans,
+        len_offsets,
+        uids: acc.uids,
+        refreqs: acc.refreqs,
+        forbidden: acc.forbidden,
+        cookie_like: acc.cookie_like,
+        cookies: acc.cookies,
+        auth,
+        auth_end,
+        mac_off,
+        plain_len,
+    }
+}
+
+impl Built {
+    /// The datagram cut to its first `cut` bytes, with the facts adjusted: only fields
+    /// that are completely inside the prefix still exist.
+    pub(super) fn truncated(&self, cut: usize) -> Built {
+        let mut b = self.clone();
+        b.bytes.truncate(cut);
+        b.spans.retain(|s| s.off + s.wire <= cut);
+        b.len_offsets.retain(|o| o + 2 <= cut);
+        b.uids.retain(|(_, _, end)| *end <= cut);
+        b.refreqs.retain(|(_, _, _, end)| *end <= cut);
+        if self.auth != AuthState::NoAuth && cut < self.auth_end {
+            // the authenticator is gone: what remains is a plain request (or garbage)
+            b.auth = AuthState::NoAuth;
+        }
+        b.mac_off = b.mac_off.min(cut);
+        b
+    }
+}
+
+// ---- enumeration -------------------------------------------------------------------
+
+/// The extension-field alphabet of one version.
+pub(super) fn alphabet(ver: u8, thorough: bool) -> Vec<Fld> {
+    let auths = |v: &mut Vec<Fld>| {
+        v.push(Fld::Auth(Au::Ok, vec![]));
+        v.push(Fld::Auth(Au::Ok, vec![Fld::Ph(0)]));
+        v.push(Fld::Auth(Au::Ok, vec![Fld::Uid(32), Fld::Unk(24)]));
+        v.push(Fld::Auth(Au::BadTag, vec![Fld::Uid(32), Fld::Unk(24)]));
+        v.push(Fld::Auth(Au::WrongKey, vec![]));
+        v.push(Fld::Auth(Au::N8, vec![]));
+        if thorough {
+            v.push(Fld::Auth(Au::Ok, vec![Fld::Ph(0), Fld::Ph(0)]));
+            v.push(Fld::Auth(Au::N32, vec![]));
+        }
+    };
+    let mut v = vec![];
+    if ver == 5 {
+        for n in [0u16, 5, 12, 32, 64] {
+            v.push(Fld::Uid(n));
+        }
+    } else {
+        for n in [0u16, 4, 12, 32, 64] {
+            v.push(Fld::Uid(n));
+        }
+    }
+    v.push(Fld::Unk(0));
+    v.push(Fld::Unk(24));
+    v.push(Fld::Cookie(Ck::Cur, 0));
+    v.push(Fld::Cookie(Ck::Prev, 0));
+    v.push(Fld::Cookie(Ck::Expired, 0));
+    if thorough {
+        v.push(Fld::Cookie(Ck::Foreign, 0));
+        v.push(Fld::Cookie(Ck::Garbage, 0));
+        v.push(Fld::Cookie(Ck::Cur, 4));
+    }
+    v.push(Fld::Ph(-4));
+    v.push(Fld::Ph(0));
+    v.push(Fld::Ph(4));
+    if ver == 5 {
+        v.push(Fld::RefId(4, 0));
+        v.push(Fld::RefId(16, 0));
+        v.push(Fld::RefId(512, 0));
+        v.push(Fld::RefId(16, 508));
+        v.push(Fld::RefId(6, 0));
+        v.push(Fld::Draft(false));
+        v.push(Fld::Pad(4));
+        v.push(Fld::Pad(16));
+    } else {
+        v.push(Fld::RefId(16, 0));
+        v.push(Fld::Draft(true));
+        v.push(Fld::Pad(16));
+    }
+    auths(&mut v);
+    v
+}
+
+const POLLS: [u8; 7] = [6, 0, 4, 10, 17, 127, 255];
+
+/// All words of length <= `max_len` over `alpha`.
+pub(super) fn words(alpha: &[Fld], max_len: usize) -> Vec<Vec<Fld>> {
+    let mut out = vec![vec![]];
+    let mut level: Vec<Vec<Fld>> = vec![vec![]];
+    for _ in 0..max_len {
+        let mut next = Vec::with_capacity(level.len() * alpha.len());
+        for w in &level {
+            for a in alpha {
+                let mut n = w.clone();
+                n.push(a.clone());
+                next.push(n);
+            }
+        }
+        out.extend(next.iter().cloned());
+        level = next;
+    }
+    out
+}
+
+/// The request grammar G shared by C16/C17/C18 (and the base set of C22):
+/// * v3: header + tail of {0, 3, 4, 20, 24, 25} bytes;
+/// * v4: every word of <= `max_len` symbols of `alphabet(4)` x MAC {none, 4, 20, 24}
+///       (+ the upgrade marker variant for words of <= 1 symbol);
+/// * v5: every word of <= `max_len` symbols of `alphabet(5)` with the draft
+///       identification appended or prepended, x tail {none, 4 junk bytes}; without any
+///       draft identification only for words of <= 1 symbol.
+/// poll / leap bits of the request header rotate with the case index (not a product
+/// dimension). `alg512` sessions are used for every 5th word.
+pub(super) fn grammar(thorough: bool, max_len: usize) -> Vec<Req> {
+    let mut out = vec![];
+    let mut idx = 0usize;
+    let mut push = |out: &mut Vec<Req>, mut r: Req| {
+        r.poll = POLLS[idx % POLLS.len()];
+        r.leap = ((idx / 7) % 4) as u8;
+        idx += 1;
+        out.push(r);
+    };
+    for mac in [0u16, 3, 4, 20, 24, 25] {
+        let mut r = Req::plain(3, vec![]);
+        r.mac = mac;
+        push(&mut out, r);
+    }
+    let a4 = alphabet(4, thorough);
+    for (wi, w) in words(&a4, max_len).into_iter().enumerate() {
+        for mac in [0u16, 4, 20, 24] {
+            let mut r = Req::plain(4, w.clone());
+            r.mac = mac;
+            r.alg512 = wi % 5 == 4;
+            push(&mut out, r);
+        }
+        if w.len() <= 1 {
+            let mut r = Req::plain(4, w.clone());
+            r.upgrade = true;
+            push(&mut out, r);
+        }
+    }
+    let a5 = alphabet(5, thorough);
+    for (wi, w) in words(&a5, max_len).into_iter().enumerate() {
+        for draft_front in [false, true] {
+            for mac in [0u16, 4] {
+                let mut f = w.clone();
+                if draft_front {
+                    f.insert(0, Fld::Draft(true));
+                } else {
+                    f.push(Fld::Draft(true));
+                }
+                let mut r = Req::plain(5, f);
+                r.mac = mac;
+                r.alg512 = wi % 5 == 4;
+                push(&mut out, r);
+            }
+        }
+        if w.len() <= 1 {
+            push(&mut out, Req::plain(5, w.clone()));
+        }
+    }
+    out
+}
+
+// =====================================================================================
+// answer walker (independent of the decoder under test)
+// =====================================================================================
+
+#[derive(Clone, Debug, PartialEq, Eq)]
+pub(super) struct AField {
+    pub ty: u16,
+    /// offset of the field inside the buffer that was walked
+    pub off: usize,
+    pub declared: usize,
+    pub wire: usize,
+    /// `declared - 4` bytes
+    pub body: Vec<u8>,
+    /// bytes between the declared end and the wire end
+    pub pad: Vec<u8>,
+}
+
+#[derive(Clone, Copy, Debug, PartialEq, Eq, Hash, PartialOrd, Ord)]
+pub(super) enum Kind {
+    Time,
+    Deny,
+    Rate,
+    Nak,
+    OtherKiss,
+}
+
+#[derive(Clone, Debug)]
+pub(super) struct Answer {
+    pub raw: Vec<u8>,
+    pub ver: u8,
+    pub mode: u8,
+    pub leap: u8,
+    pub stratum: u8,
+    pub poll: u8,
+    pub fields: Vec<AField>,
+}
+
+/// Walk a sequence of extension fields. `v5` framing: declared length may be any value
+/// >= 4 and the field occupies the next multiple of 4; v4 framing: declared length is a
+/// multiple of 4. Everything must be consumed.
+pub(super) fn walk_fields(buf: &[u8], base: usize, v5: bool) -> Result<Vec<AField>, String> {
+    let mut out = vec![];
+    let mut o = 0usize;
+    while o < buf.len() {
+        if buf.len() - o < 4 {
+            return Err(format!("{} stray bytes at {}", buf.len() - o, base + o));
+        }
+        let ty = u16::from_be_bytes([buf[o], buf[o + 1]]);
+        let declared = u16::from_be_bytes([buf[o + 2], buf[o + 3]]) as usize;
+        if declared < 4 {
+            return Err(format!("field at {} declares length {declared}", base + o));
+        }
+        if !v5 && declared % 4 != 0 {
+            return Err(format!("v4 field at {} declares length {declared}", base + o));
+        }
+        let wire = round4(declared);
+        if o + wire > buf.len() {
+            return Err(format!("field at {} (len {declared}) overruns the datagram", base + o));
+        }
+        out.push(AField {
+            ty,
+            off: base + o,
+            declared,
+            wire,
+            body: buf[o + 4..o + declared].to_vec(),
+            pad: buf[o + declared..o + wire].to_vec(),
+        });
+        o += wire;
+    }
+    Ok(out)
+}
+
+pub(super) fn walk(raw: &[u8]) -> Result<Answer, String> {
+    if raw.len() < 48 {
+        return Err(format!("answer of {} bytes", raw.len()));
+    }
+    let ver = (raw[0] >> 3) & 7;
+    let fields = match ver {
+        3 => {
+            if raw.len() != 48 {
+                return Err(format!("v3 answer of {} bytes", raw.len()));
+            }
+            vec![]
+        }
+        4 => walk_fields(&raw[48..], 48, false)?,
+        5 => walk_fields(&raw[48..], 48, true)?,
+        v => return Err(format!("answer has version {v}")),
+    };
+    Ok(Answer {
+        raw: raw.to_vec(),
+        ver,
+        mode: raw[0] & 7,
+        leap: raw[0] >> 6,
+        stratum: raw[1],
+        poll: raw[2],
+        fields,
+    })
+}
+
+impl Answer {
+    pub(super) fn kind(&self) -> Kind {
+        if self.stratum != 0 {
+            return Kind::Time;
+        }
+        if self.ver == 5 {
+            if self.raw[15] & 0b100 != 0 {
+                Kind::Nak
+            } else if self.poll == 0x7F {
+                Kind::Deny
+            } else {
+                Kind::Rate
+            }
+        } else {
+            match &self.raw[12..16] {
+                b"DENY" => Kind::Deny,
+                b"RATE" => Kind::Rate,
+                b"NTSN" => Kind::Nak,
+                _ => Kind::OtherKiss,
+            }
+        }
+    }
+    pub(super) fn auth_fields(&self) -> Vec<&AField> {
+        self.fields.iter().filter(|f| f.ty == T_AUTH).collect()
+    }
+}
+
+#[derive(Clone, Debug)]
+pub(super) struct Opened {
+    /// index of the authenticator in `Answer::fields`
+    pub index: usize,
+    pub nonce: Vec<u8>,
+    pub plaintext: Vec<u8>,
+    pub inner: Vec<AField>,
+}
+
+/// Authenticate + decrypt the answer's (only) NTS authenticator as the client would:
+/// key = the cookie's s2c key, associated data = every byte before the field.
+pub(super) fn open_nts(ans: &Answer, s2c: &dyn Cipher) -> Result<Opened, String> {
+    let idx: Vec<usize> = ans
+        .fields
+        .iter()
+        .enumerate()
+        .filter(|(_, f)| f.ty == T_AUTH)
+        .map(|(i, _)| i)
+        .collect();
+    if idx.len() != 1 {
+        return Err(format!("{} authenticator fields", idx.len()));
+    }
+    let f = &ans.fields[idx[0]];
+    let b = &f.body;
+    if b.len() < 4 {
+        return Err("authenticator body shorter than 4".into());
+    }
+    let nl = u16::from_be_bytes([b[0], b[1]]) as usize;
+    let cl = u16::from_be_bytes([b[2], b[3]]) as usize;
+    let cs = 4 + round4(nl);
+    if 4 + nl > b.len() || cs + cl > b.len() {
+        return Err(format!("nonce {nl} / ciphertext {cl} do not fit the body of {}", b.len()));
+    }
+    let nonce = &b[4..4 + nl];
+    let ct = &b[cs..cs + cl];
+    let plaintext = s2c
+        .decrypt(nonce, ct, &ans.raw[..f.off])
+        .map_err(|_| "does not verify under the s2c key".to_string())?;
+    let inner = walk_fields(&plaintext, 0, ans.ver == 5).map_err(|e| format!("plaintext: {e}"))?;
+    Ok(Opened {
+        index: idx[0],
+        nonce: nonce.to_vec(),
+        plaintext,
+        inner,
+    })
+}
+
+pub(super) fn find(hay: &[u8], needle: &[u8]) -> Option<usize> {
+    if needle.is_empty() || hay.len() < needle.len() {
+        return None;
+    }
+    hay.windows(needle.len()).position(|w| w == needle)
+}
+
+/// Batches counters / distinct hashes per worker and flushes them into the `Ctx` on drop,
+/// so that the hot loop takes no lock.
+pub(super) struct Local<'a> {
+    ctx: &'a Ctx,
+    counters: BTreeMap<&'static str, u64>,
+    maxes: BTreeMap<&'static str, u64>,
+    distinct: Vec<u64>,
+}
+
+impl<'a> Local<'a> {
+    pub(super) fn new(ctx: &'a Ctx) -> Self {
+        Local {
+            ctx,
+            counters: BTreeMap::new(),
+            maxes: BTreeMap::new(),
+            distinct: vec![],
+        }
+    }
+    pub(super) fn add(&mut self, k: &'static str, n: u64) {
+        *self.counters.entry(k).or_insert(0) += n;
+    }
+    pub(super) fn inc(&mut self, k: &'static str) {
+        self.add(k, 1);
+    }
+    pub(super) fn max(&mut self, k: &'static str, n: u64) {
+        let e = self.maxes.entry(k).or_insert(0);
+        *e = (*e).max(n);
+    }
+    pub(super) fn distinct(&mut self, h: u64) {
+        self.distinct.push(h);
+        if self.distinct.len() >= 4096 {
+            self.ctx.distinct_many(self.distinct.drain(..));
+        }
+    }
+    pub(super) fn flush(&mut self) {
+        for (k, v) in std::mem::take(&mut self.counters) {
+            self.ctx.add(k, v);
+        }
+        for (k, v) in std::mem::take(&mut self.maxes) {
+            self.ctx.max(k, v);
+        }
+        self.ctx.distinct_many(self.distinct.drain(..));
+    }
+}
+
+impl Drop for Local<'_> {
+    fn drop(&mut self) {
+        self.flush();
+    }
+}
+
+/// Collects violations and reports, per class, the three with the smallest request
+/// first (so the evidence carries minimal traces whatever the thread interleaving was).
+pub(super) struct Findings {
+    inner: std::sync::Mutex<BTreeMap<String, (u64, Vec<(usize, String, String)>)>>,
+}
+
+impl Findings {
+    pub(super) fn new() -> Self {
+        Findings {
+            inner: std::sync::Mutex::new(BTreeMap::new()),
+        }
+    }
+    /// `size` orders the findings of a class (smaller = reported first).
+    pub(super) fn report(&self, class: &str, size: usize, what: impl FnOnce() -> String, trace: impl FnOnce() -> String) {
+        let mut g = self.inner.lock().unwrap();
+        let e = g.entry(class.to_string()).or_insert((0, vec![]));
+        e.0 += 1;
+        if e.1.len() < 3 || size < e.1.last().unwrap().0 {
+            e.1.push((size, what(), trace()));
+            e.1.sort();
+            e.1.truncate(3);
+        }
+    }
+    pub(super) fn count(&self, class: &str) -> u64 {
+        self.inner.lock().unwrap().get(class).map(|e| e.0).unwrap_or(0)
+    }
+    pub(super) fn flush(&self, ctx: &Ctx) {
+        let g = self.inner.lock().unwrap();
+        for (class, (n, best)) in g.iter() {
+            for (_, what, trace) in best {
+                ctx.violation(class, what.clone(), trace.clone());
+            }
+            for _ in best.len() as u64..*n {
+                ctx.violation(class, "", "");
+            }
+        }
+    }
+}
+
+pub(super) fn kind_key(k: Kind) -> &'static str {
+    match k {
+        Kind::Time => "answers_time",
+        Kind::Deny => "answers_deny",
+        Kind::Rate => "answers_rate",
+        Kind::Nak => "answers_nak",
+        Kind::OtherKiss => "answers_other_kiss",
+    }
+}
+
+// =====================================================================================
+// C16 proper
+// =====================================================================================
+
+/// What the daemon passes as the answer buffer, read from its source.
+#[derive(Clone, Debug, PartialEq, Eq)]
+enum Discipline {
+    /// `&mut <send>[..<len>]` where `<len>` also slices the received datagram
+    RequestSized,
+    /// anything else: the text of the 4th argument
+    Other(String),
+    /// the source could not be read / the call was not found
+    Unknown(String),
+}
+
+fn split_top_level_args(s: &str) -> Vec<String> {
+    let mut out = vec![];
+    let mut depth = 0i32;
+    let mut cur = String::new();
+    for c in s.chars() {
+        match c {
+            '(' | '[' | '{' => {
+                depth += 1;
+                cur.push(c);
+            }
+            ')' | ']' | '}' => {
+                depth -= 1;
+                cur.push(c);
+            }
+            ',' if depth == 0 => {
+                out.push(cur.trim().to_string());
+                cur.clear();
+            }
+            _ => cur.push(c),
+        }
+    }
+    if !cur.trim().is_empty() {
+        out.push(cur.trim().to_string());
+    }
+    out
+}
+
+fn daemon_source_path() -> String {
+    format!("{}/../ntpd/src/daemon/server.rs", env!("CARGO_MANIFEST_DIR"))
+}
+
+/// Parse `self.server.handle(a, b, &buf[..LEN], &mut send[..LEN], stats)` out of the
+/// daemon's serve loop.
+fn daemon_discipline(src: &str) -> Discipline {
+    // only the non-test part of the file
+    let code = src.split("#[cfg(test)]").next().unwrap_or(src);
+    let Some(at) = code.find(".server.handle(").or_else(|| code.find("server.handle(")) else {
+        return Discipline::Unknown("no `server.handle(` call in the daemon".into());
+    };
+    let start = at + code[at..].find('(').unwrap() + 1;
+    let mut depth = 1i32;
+    let mut end = start;
+    for (i, c) in code[start..].char_indices() {
+        match c {
+            '(' | '[' | '{' => depth += 1,
+            ')' | ']' | '}' => {
+                depth -= 1;
+                if depth == 0 {
+                    end = start + i;
+                    break;
+                }
+            }
+            _ => {}
+        }
+    }
+    let args = split_top_level_args(&code[start..end]);
+    if args.len() != 5 {
+        return Discipline::Unknown(format!("handle call has {} arguments", args.len()));
+    }
+    let norm = |s: &str| s.chars().filter(|c| !c.is_whitespace()).collect::<String>();
+    let msg = norm(&args[2]);
+    let buf = norm(&args[3]);
+    // message: &NAME[..LEN]
+    let msg_len = msg
+        .strip_prefix('&')
+        .and_then(|m| m.split_once("[.."))
+        .and_then(|(_, l)| l.strip_suffix(']'))
+        .map(|s| s.to_string());
+    let buf_len = buf
+        .strip_prefix("&mut")
+        .and_then(|m| m.split_once("[.."))
+        .and_then(|(_, l)| l.strip_suffix(']'))
+        .map(|s| s.to_string());
+    let ident = |s: &str| !s.is_empty() && s.chars().all(|c| c.is_ascii_alphanumeric() || c == '_');
+    match (msg_len, buf_len) {
+        (Some(a), Some(b)) if a == b && ident(&a) => Discipline::RequestSized,
+        _ => Discipline::Other(args[3].clone()),
+    }
+}
+
+struct Env {
+    cfg: Cfg,
+    keys: KeyEnv,
+}
+
+fn c16_envs() -> Vec<Env> {
+    let mut v = vec![];
+    for (i, cfg) in Cfg::ALL.iter().enumerate() {
+        v.push(Env {
+            cfg: *cfg,
+            keys: key_env(i % 2 == 0),
+        });
+    }
+    // the two configurations that answer most, also with the other key-set state
+    v.push(Env {
+        cfg: Cfg::Open,
+        keys: key_env(false),
+    });
+    v.push(Env {
+        cfg: Cfg::DenyList,
+        keys: key_env(true),
+    });
+    v
+}
+
+/// Run one request (and optionally all its truncations) the way the daemon does.
+/// `daemon_buf(request_len)` = the buffer length the daemon hands to `handle`.
+fn c16_case(
+    ctx: &Ctx,
+    loc: &mut Local,
+    env: &Env,
+    server: &mut Server<MockClock>,
+    req: &Req,
+    truncations: bool,
+    daemon_buf: &dyn Fn(usize) -> usize,
+    tag: &str,
+) {
+    let built = build(req, &env.keys);
+    let mut full = built.bytes;
+    if full.len() > MAX_DATAGRAM {
+        full.truncate(MAX_DATAGRAM);
+        loc.inc("capped_to_1024");
+    }
+    let cuts: Vec<usize> = if truncations {
+        (0..=full.len()).collect()
+    } else {
+        vec![full.len()]
+    };
+    for cut in cuts {
+        let msg = &full[..cut];
+        let trace = || format!("{};{};k{};{};cut={}", tag, env.cfg.code(), env.keys.rotated as u8, req.code(), cut);
+        loc.inc("evaluations");
+        match run_handle(server, client_ip(0), msg, daemon_buf(msg.len())) {
+            Err(p) => {
+                ctx.violation("C16:panic", format!("Server::handle panicked: {p}"), trace());
+            }
+            Ok(h) => match h.out {
+                Out::Ignore => loc.inc("ignored"),
+                Out::Respond(ans) => {
+                    loc.inc("answered");
+                    if cut == full.len() {
+                        loc.distinct(common::hash_of(&(env.cfg, env.keys.rotated, req)));
+                    } else {
+                        loc.inc("answered_truncated");
+                    }
+                    if let Ok(a) = walk(&ans) {
+                        loc.inc(kind_key(a.kind()));
+                        if !a.auth_fields().is_empty() {
+                            loc.inc("answers_nts");
+                        }
+                    }
+                    if ans.len() == msg.len() {
+                        loc.inc("answer_exactly_request_sized");
+                    }
+                    if ans.len() > msg.len() {
+                        ctx.violation(
+                            "C16:amplification",
+                            format!(
+                                "answer of {} bytes to a request of {} bytes ({}) request={}",
+                                ans.len(),
+                                msg.len(),
+                                req.code(),
+                                common::hex(msg)
+                            ),
+                            trace(),
+                        );
+                    }
+                }
+            },
+        }
+        // (i) intrinsic size, untruncated requests only
+        if cut == full.len() && env.cfg != Cfg::RateLimited {
+            loc.inc("evaluations");
+            if let Ok(Handled {
+                out: Out::Respond(ans),
+                ..
+            }) = run_handle(server, client_ip(0), msg, BIG_BUF)
+            {
+                if ans.len() > msg.len() {
+                    loc.inc("intrinsic_longer_than_request");
+                    loc.max("intrinsic_worst_growth_bytes", (ans.len() - msg.len()) as u64);
+                    loc.max("intrinsic_worst_factor_percent", (ans.len() * 100 / msg.len().max(1)) as u64);
+                } else {
+                    loc.inc("intrinsic_fits");
+                }
+            }
+        }
+    }
+}
+
+fn replay(ctx: &Ctx, trace: &str) -> String {
+    // "<tag>;<cfg>;k<0|1>;<req code>;cut=<n>"  (tag "daemon" = request sized, "whole" = 1024)
+    let p: Vec<&str> = trace.split(';').collect();
+    if p.len() != 5 {
+        return format!("unparseable trace {trace:?}");
+    }
+    let (Some(cfg), Some(req)) = (Cfg::parse(p[1]), Req::parse(p[3])) else {
+        return format!("unparseable trace {trace:?}");
+    };
+    let keys = key_env(p[2] == "k1");
+    let cut: usize = p[4].trim_start_matches("cut=").parse().unwrap_or(usize::MAX);
+    let built = build(&req, &keys);
+    let mut msg = built.bytes;
+    msg.truncate(MAX_DATAGRAM.min(cut));
+    let buf_len = if p[0] == "whole" { MAX_DATAGRAM } else { msg.len() };
+    let mut server = make_server(cfg, &Sync::TYPICAL, &keys.server);
+    match run_handle(&mut server, client_ip(0), &msg, buf_len) {
+        Err(e) => {
+            ctx.violation("C16:panic", e.clone(), trace);
+            format!("panic {e}")
+        }
+        Ok(h) => match h.out {
+            Out::Ignore => format!("request {} bytes -> ignored", msg.len()),
+            Out::Respond(a) => {
+                if a.len() > msg.len() {
+                    ctx.violation("C16:amplification", format!("{} > {}", a.len(), msg.len()), trace);
+                }
+                format!(
+                    "request {} bytes -> answer {} bytes kind {:?}",
+                    msg.len(),
+                    a.len(),
+                    walk(&a).map(|w| w.kind())
+                )
+            }
+        },
+    }
+}
+
+#[test]
+fn check() {
+    let ctx = Ctx::new("C16");
+    if let Some(t) = common::replay_trace() {
+        let a = replay(&ctx, &t);
+        let b = replay(&ctx, &t);
+        common::report_replay("C16", &a, &b, ctx.violation_count() > 0);
+        return;
+    }
+    let thorough = !ctx.quick();
+    ctx.rule(
+        "request grammar G: v3 header + tail {0,3,4,20,24,25}; v4: every word of <=3 symbols over {UID body 0/4/12/32/64, \
+         unknown 0/24, cookie under current/previous/expired key (+foreign, garbage, padded: thorough), placeholder len-4/len/len+4, \
+         refid-req 16, draft id, padding 16, authenticator {valid+[], valid+[placeholder], valid+[UID,unknown], bad tag, wrong key, 8-byte nonce \
+         (+2 placeholders, 32-byte nonce: thorough)}} x MAC {0,4,20,24} (+upgrade marker for <=1 symbol); v5: same with UID 0/5/12/32/64, \
+         refid-req 4/16/512/16@508/6, wrong draft, padding 4/16, draft id first or last x tail {0,4}; capped at the 1024-byte receive size; \
+         every truncation of every request of <=2 symbols (quick) / <=3 symbols (thorough); x 10 (configuration, key-set state) pairs. \
+         Handled with the daemon's buffer discipline (read from ntpd/src/daemon/server.rs). Distinct & non-trivial = an (environment, request) \
+         pair that was answered.",
+    );
+    ctx.assume("the daemon sends exactly the slice returned in ServerAction::Respond (ntpd/src/daemon/server.rs send_from_to(message, ..))");
+    ctx.assume("requests longer than 1024 bytes reach the server cut to 1024 bytes (recv into a MAX_PACKET_SIZE buffer)");
+
+    // (s) the daemon's buffer discipline
+    let path = daemon_source_path();
+    let discipline = match std::fs::read_to_string(&path) {
+        Ok(src) => daemon_discipline(&src),
+        Err(e) => Discipline::Unknown(format!("cannot read {path}: {e}")),
+    };
+    ctx.note("daemon_buffer_discipline", &format!("{discipline:?}"));
+    let request_sized = discipline == Discipline::RequestSized;
+    match &discipline {
+        Discipline::RequestSized => ctx.set("daemon_passes_request_sized_buffer", 1),
+        Discipline::Other(arg) => {
+            ctx.set("daemon_passes_request_sized_buffer", 0);
+            ctx.violation(
+                "C16:daemon-buffer-discipline",
+                format!("the daemon hands `{arg}` to Server::handle instead of the send buffer cut to the request length"),
+                "static;ntpd/src/daemon/server.rs",
+            );
+        }
+        Discipline::Unknown(why) => {
+            ctx.set("daemon_passes_request_sized_buffer", 0);
+            ctx.violation(
+                "C16:daemon-buffer-discipline",
+                format!("cannot establish the daemon's answer buffer: {why}"),
+                "static;ntpd/src/daemon/server.rs",
+            );
+        }
+    }
+    let tag = if request_sized { "daemon" } else { "whole" };
+    let daemon_buf = move |n: usize| if request_sized { n } else { MAX_DATAGRAM };
+
+    let reqs = grammar(thorough, 3);
+    ctx.set("grammar_requests", reqs.len() as u64);
+    let trunc_len = if thorough { 3 } else { 2 };
+    let envs = c16_envs();
+    for (ei, env) in envs.iter().enumerate() {
+        // truncations only in the first four environments (they differ in which requests are answered)
+        let with_trunc = ei < 4;
+        common::par_for_with(
+            reqs.len() as u64,
+            64,
+            || (Local::new(&ctx), make_server(env.cfg, &Sync::TYPICAL, &env.keys.server)),
+            |(loc, server), i| {
+                let req = &reqs[i as usize];
+                let n_sym = req.fields.iter().filter(|f| !matches!(f, Fld::Draft(true))).count();
+                if env.cfg == Cfg::RateLimited {
+                    // a fresh server per request: the first datagram of a client is never limited
+                    *server = make_server(env.cfg, &Sync::TYPICAL, &env.keys.server);
+                }
+                c16_case(&ctx, loc, env, server, req, with_trunc && n_sym <= trunc_len, &daemon_buf, tag);
+            },
+        );
+        if ctx.over_budget() && ei + 1 < envs.len() {
+            ctx.cap_hit(&format!("budget reached after {} of {} environments", ei + 1, envs.len()));
+            ctx.exhaustive(false);
+            ctx.finish();
+            return;
+        }
+    }
+    let a = grammar(false, 0);
+    ctx.sample(format!("{} -> e.g. first requests: {}", reqs.len(), a.iter().take(3).map(|r| r.code()).collect::<Vec<_>>().join(" ; ")));
+    for r in reqs.iter().filter(|r| r.fields.len() == 3).step_by(9001).take(6) {
+        let k = key_env(true);
+        let b = build(r, &k);
+        let mut s = make_server(Cfg::Open, &Sync::TYPICAL, &k.server);
+        let o = run_handle(&mut s, client_ip(0), &b.bytes, b.bytes.len()).map(|h| match h.out {
+            Out::Ignore => "ignored".to_string(),
+            Out::Respond(a) => format!("{} bytes", a.len()),
+        });
+        ctx.sample(format!("{} ({} bytes, {:?}) -> {:?}", r.code(), b.bytes.len(), b.auth, o));
+    }
+    ctx.set("transitions", ctx.get("evaluations"));
+    ctx.set("states", ctx.get("grammar_requests"));
+    ctx.exhaustive(true);
+    ctx.finish();
+}
